@@ -724,6 +724,32 @@ scell!(CLoudSub, SLoudSub,
         }
     });
 
+// an optional flattened struct whose only member can be overridden away by an argument outside it:
+// once the member is gone nothing of the struct is on the line any more
+#[derive(Args, Debug, PartialEq, Clone)]
+struct InnerO {
+    #[arg(long, overrides_with = "force")]
+    name: Option<String>,
+}
+
+#[derive(Parser, Debug, PartialEq, Clone)]
+#[command(name = "prog")]
+struct SOvrFlatten {
+    #[command(flatten)]
+    inner: Option<InnerO>,
+    #[arg(long)]
+    force: bool,
+}
+
+scell!(COvrFlatten, SOvrFlatten,
+    model: |m| Some(SOvrFlatten { inner: if cli(m, "name") { Some(InnerO { name: m.get_one::<String>("name").cloned() }) } else { None }, force: m.get_flag("force") }),
+    domain: vec![SOvrFlatten { inner: None, force: false }, SOvrFlatten { inner: None, force: true }, SOvrFlatten { inner: Some(InnerO { name: Some(s("n")) }), force: false }],
+    print: |v| { let mut a = vec![]; if v.force { a.push(s("--force")); } if let Some(InnerO { name: Some(n) }) = &v.inner { a.push(format!("--name={}", n)); } a },
+    update_model: |v, m| {
+        if cli(m, "name") { v.inner = Some(InnerO { name: m.get_one::<String>("name").cloned() }); }
+        if cli(m, "force") { v.force = m.get_flag("force"); }
+    });
+
 fn corpus() -> Vec<Box<dyn Cell>> {
     vec![
         Box::new(CBool), Box::new(CCount), Box::new(CReqStr), Box::new(CReqU8), Box::new(CReqEnum), Box::new(CReqPos),
@@ -734,7 +760,7 @@ fn corpus() -> Vec<Box<dyn Cell>> {
         Box::new(COptVecStr), Box::new(COptVecN0),
         Box::new(CGlobal), Box::new(CDefMissing),
         Box::new(CSetFalse), Box::new(CDefVals), Box::new(CReqVec), Box::new(COptBool), Box::new(CShortOnly), Box::new(CReqPosVec), Box::new(CCountU8Def), Box::new(CReqFlatten), Box::new(CBoxFlatten), Box::new(CShortNames), Box::new(CShortNamesUpper), Box::new(CReqU32), Box::new(CScalarAppend), Box::new(CScalarN), Box::new(CReqScalarN),
-        Box::new(CFlatten), Box::new(COptFlatten), Box::new(CSub), Box::new(COptSub), Box::new(CFlatSub), Box::new(CTwoSub), Box::new(CLoudSub),
+        Box::new(CFlatten), Box::new(COptFlatten), Box::new(CSub), Box::new(COptSub), Box::new(CFlatSub), Box::new(CTwoSub), Box::new(CLoudSub), Box::new(COvrFlatten),
     ]
 }
 
